@@ -54,6 +54,29 @@
 //!               every step; when a transaction commits, aborts or times out at the participant no
 //!               lock of it remains (lock table, keys_for_transaction), however often its PREPARE was
 //!               answered.
+//!  participant-lease: the same programs at one real `TxParticipant`, with the dimension the part above
+//!               lacks: the key locks' leases run out while the prepared entries stay (no cleanup_stale /
+//!               recover in between), so that a key may be taken over by another transaction's PREPARE
+//!               and the first transaction's PREPARE may then be delivered again. Leases run out (a)
+//!               during a "downtime": the participant's lock table is restored (directly or through
+//!               bitcode) with the locks of one holder / all / one key 100 leases older, the prepared
+//!               entries untouched; (b) one case in six, in real time: PREPAREs are granted 25 ms or
+//!               120 s leases (`locks.default_timeout`) and the program naps 40 ms. The reference keeps,
+//!               per key, the grantee and the harness' clock readings around every grant that may be the
+//!               one in force (a retransmission answered YES while the key was still held may or may not
+//!               have renewed the lease: both grants stay candidates) and derives definitely-live /
+//!               definitely-run-out / undecidable (= not judged) at every call. Oracle as in part
+//!               participant, with "held" meaning "granted and the lease definitely running": a PREPARE
+//!               - first or retransmitted - that meets a key held by another transaction is refused with
+//!               a conflict naming a holder, YES leaves every requested key held by the requester, a
+//!               lock whose lease ran out neither blocks nor is reported, and nothing of a finished
+//!               transaction remains. Runnable alone (`--part participant-lease`).
+//!  coord-lease: the programs of part coord with one more operation: the coordinator is saved to a
+//!               store, the leases of some key locks run out (the persisted lock table is rewritten with
+//!               these locks 100 leases older; pending transactions as saved) and it is loaded again
+//!               (`save_to_store` / `load_from_store`). Requests then prefer keys whose lease ran out
+//!               (take-over) and retransmissions go preferably to transactions that lost a lease. Same
+//!               oracle as coord, a key whose lease ran out counting as held by nobody. Runnable alone.
 //!  coord-threads: 2-5 OS threads run transaction life cycles (begin, handle_prepare + record_vote per
 //!               shard, then commit / abort / complete_abort) over 4-12 shared keys (+ optionally
 //!               4-32 private keys per prepare) through ONE real coordinator, while another thread
@@ -98,8 +121,8 @@ use tensor_chain::block::Transaction;
 use tensor_chain::consensus::ConsensusManager;
 use tensor_chain::deadlock::{DeadlockDetector, DeadlockDetectorConfig, VictimSelectionPolicy, WaitForGraph};
 use tensor_chain::distributed_tx::{
-    DistributedTxConfig, DistributedTxCoordinator, LockManager, PrepareRequest, PrepareVote, SerializableLockState,
-    TxParticipant, TxPhase,
+    CoordinatorState, DistributedTxConfig, DistributedTxCoordinator, LockManager, PrepareRequest, PrepareVote,
+    SerializableLockState, TxParticipant, TxPhase,
 };
 use tensor_store::SparseVector;
 
@@ -1297,9 +1320,14 @@ struct CTx {
     /// lock handles handed out by a re-delivered prepare whose vote the coordinator refused to
     /// record (the shard had voted already)
     unrecorded: BTreeSet<u64>,
+    /// keys it was granted whose lease ran out during a downtime (part coord-lease)
+    lost: BTreeSet<String>,
 }
 
-fn coord_inner(case_seed: u64, r: &mut Report) -> Result<(u64, bool), Fail> {
+/// `lease` = part coord-lease: the coordinator is also restarted from its persisted state after a
+/// downtime during which the leases of some key locks ran out (the pending transactions are what
+/// they were)
+fn coord_inner(case_seed: u64, lease: bool, r: &mut Report) -> Result<(u64, bool), Fail> {
     let mut rng = Rng::new(case_seed);
     // 0: no transaction ever times out; 1: every sweep times out everything pending (timeout 0);
     // 2: timeout 20 ms with 12 ms naps, so that old transactions time out while young ones stay
@@ -1310,7 +1338,12 @@ fn coord_inner(case_seed: u64, r: &mut Report) -> Result<(u64, bool), Fail> {
     let prepare_timeout_ms: u64 = [3_600_000, 0, 20][timeout_mode];
     let cfg = DistributedTxConfig { prepare_timeout_ms, ..DistributedTxConfig::default() };
     let mut naps = 0;
-    let coord = DistributedTxCoordinator::new(ConsensusManager::default_config(), cfg);
+    let mut coord = DistributedTxCoordinator::new(ConsensusManager::default_config(), cfg.clone());
+    let part = if lease { "coord-lease" } else { "coord" };
+    // key -> transaction whose lease on it ran out during a downtime and that nobody was granted since
+    let mut lapsed: BTreeMap<String, u64> = BTreeMap::new();
+    let mut lease_losses_met = 0u64;
+    let mut restart_store: Option<tensor_store::TensorStore> = None;
     let parts: Vec<TxParticipant> = vec![TxParticipant::new_in_memory(), TxParticipant::new_in_memory()];
     let nkeys = 3 + rng.below(4);
     let mut txs: Vec<CTx> = Vec::new();
@@ -1325,7 +1358,7 @@ fn coord_inner(case_seed: u64, r: &mut Report) -> Result<(u64, bool), Fail> {
     let mut next_orphan = 7u64;
     let case_started = Instant::now();
 
-    let completed = |tx: u64, how: &str, unrecorded: &BTreeSet<u64>, all_ids: &[u64], trace: &[String], soft: &mut Vec<Fail>, r: &mut Report| -> Ck {
+    let completed = |coord: &DistributedTxCoordinator, tx: u64, how: &str, unrecorded: &BTreeSet<u64>, all_ids: &[u64], trace: &[String], soft: &mut Vec<Fail>, r: &mut Report| -> Ck {
         let lm = coord.lock_manager();
         let g = coord.wait_graph();
         r.count(&format!("coord_completions[{}]", how), 1);
@@ -1383,14 +1416,16 @@ fn coord_inner(case_seed: u64, r: &mut Report) -> Result<(u64, bool), Fail> {
             r.inconclusive("coord case ran longer than 3 s (lock timeout is 30 s): machine stalled");
             return Ok((0, false));
         }
-        let choice = rng.weighted(&[18, 40, 12, 10, 6, 8, 5, 7]);
+        // (coord-lease: more retransmissions, fewer completions and sweeps, so that more pending
+        // transactions live to see their leases run out and their keys taken over)
+        let choice = if lease { rng.weighted(&[14, 40, 9, 7, 4, 5, 4, 18, 12]) } else { rng.weighted(&[18, 40, 12, 10, 6, 8, 5, 7]) };
         if choice == 0 || (txs.is_empty() && choice != 6) {
             let shards: Vec<usize> = if rng.bool() { vec![0] } else { vec![0, 1] };
             match coord.begin(&"c".to_string(), &shards) {
                 Ok(t) => {
                     trace.push(format!("begin -> tx{} shards {:?}", t.tx_id, shards));
                     all_ids.push(t.tx_id);
-                    txs.push(CTx { id: t.tx_id, shards, voted: BTreeSet::new(), begun_by: now_ms(), reqs: BTreeMap::new(), unrecorded: BTreeSet::new() });
+                    txs.push(CTx { id: t.tx_id, shards, voted: BTreeSet::new(), begun_by: now_ms(), reqs: BTreeMap::new(), unrecorded: BTreeSet::new(), lost: BTreeSet::new() });
                     r.count("coord_op[begin]", 1);
                 }
                 Err(e) => trace.push(format!("begin -> Err({})", e)),
@@ -1435,7 +1470,14 @@ fn coord_inner(case_seed: u64, r: &mut Report) -> Result<(u64, bool), Fail> {
             }
             // locks of pending transactions are judged by the table comparison below
         } else {
-            let idx = rng.below(txs.len());
+            let mut idx = rng.below(txs.len());
+            if lease && choice == 7 && rng.chance(2, 3) {
+                // (coord-lease) retransmissions go preferably to transactions that lost a lease
+                let losers: Vec<usize> = (0..txs.len()).filter(|&i| !txs[i].lost.is_empty() && !txs[i].reqs.is_empty()).collect();
+                if !losers.is_empty() {
+                    idx = *rng.pick(&losers);
+                }
+            }
             let id = txs[idx].id;
             match choice {
                 1 => {
@@ -1447,7 +1489,12 @@ fn coord_inner(case_seed: u64, r: &mut Report) -> Result<(u64, bool), Fail> {
                     }
                     let shard = open[rng.below(open.len())];
                     let nk = 1 + rng.below(2);
-                    let ops: Vec<Transaction> = (0..nk).map(|_| Transaction::Put { key: kname(rng.below(nkeys)), data: vec![1] }).collect();
+                    let mut ops: Vec<Transaction> = (0..nk).map(|_| Transaction::Put { key: kname(rng.below(nkeys)), data: vec![1] }).collect();
+                    if lease && !lapsed.is_empty() && rng.chance(1, 2) {
+                        // (coord-lease) take-over pressure: ask for a key whose lease ran out
+                        let k = lapsed.keys().nth(rng.below(lapsed.len())).cloned().unwrap_or_default();
+                        ops[0] = Transaction::Put { key: k, data: vec![1] };
+                    }
                     let keys: Vec<String> = ops.iter().map(|o| o.affected_key().to_string()).collect();
                     // the delta of the request: zero, or one of a few directions, so that pending
                     // deltas are sometimes parallel / anti-parallel / orthogonal to a new request
@@ -1496,6 +1543,9 @@ fn coord_inner(case_seed: u64, r: &mut Report) -> Result<(u64, bool), Fail> {
                                 }
                                 for k in &keys {
                                     held.insert(k.clone(), id);
+                                    if lapsed.remove(k).map(|t| t != id).unwrap_or(false) {
+                                        r.count("coord_takeovers_of_expired_locks", 1);
+                                    }
                                 }
                             }
                             PrepareVote::Conflict { conflicting_tx, .. } => {
@@ -1551,11 +1601,12 @@ fn coord_inner(case_seed: u64, r: &mut Report) -> Result<(u64, bool), Fail> {
                     if res.is_ok() {
                         let gone_tx = txs.remove(idx);
                         held.retain(|_, t| *t != id);
+                        lapsed.retain(|_, t| *t != id);
                         completions += 1;
                         for p in &parts {
                             let _ = p.commit(id);
                         }
-                        completed(id, "commit", &gone_tx.unrecorded, &all_ids, &trace, &mut soft, r)?;
+                        completed(&coord, id, "commit", &gone_tx.unrecorded, &all_ids, &trace, &mut soft, r)?;
                     }
                 }
                 3 => {
@@ -1565,11 +1616,12 @@ fn coord_inner(case_seed: u64, r: &mut Report) -> Result<(u64, bool), Fail> {
                     if res.is_ok() {
                         let gone_tx = txs.remove(idx);
                         held.retain(|_, t| *t != id);
+                        lapsed.retain(|_, t| *t != id);
                         completions += 1;
                         for p in &parts {
                             let _ = p.abort(id);
                         }
-                        completed(id, "abort", &gone_tx.unrecorded, &all_ids, &trace, &mut soft, r)?;
+                        completed(&coord, id, "abort", &gone_tx.unrecorded, &all_ids, &trace, &mut soft, r)?;
                     }
                 }
                 7 => {
@@ -1586,6 +1638,14 @@ fn coord_inner(case_seed: u64, r: &mut Report) -> Result<(u64, bool), Fail> {
                     let mine_before: BTreeSet<String> = held.iter().filter(|(_, t)| **t == id).map(|(k, _)| k.clone()).collect();
                     let vote = coord.handle_prepare(&req);
                     r.count("coord_op[retransmitted_prepare]", 1);
+                    if keys.iter().any(|k| txs[idx].lost.contains(k) && held.get(k) != Some(&id)) {
+                        // the transaction no longer holds (all of) what this PREPARE was granted
+                        lease_losses_met += 1;
+                        r.count("coord_prepare_again_after_lease_ran_out", 1);
+                        if !blockers.is_empty() {
+                            r.count("coord_prepare_again_meets_key_taken_over", 1);
+                        }
+                    }
                     match &vote {
                         PrepareVote::Yes { lock_handle, .. } => {
                             trace.push(format!("prepare again(tx{}, shard {}, {:?}) -> Yes(h{})", id, shard, keys, lock_handle));
@@ -1598,6 +1658,9 @@ fn coord_inner(case_seed: u64, r: &mut Report) -> Result<(u64, bool), Fail> {
                             }
                             for k in &keys {
                                 held.insert(k.clone(), id);
+                                if lapsed.remove(k).map(|t| t != id).unwrap_or(false) {
+                                    r.count("coord_takeovers_of_expired_locks", 1);
+                                }
                             }
                             let h = *lock_handle;
                             let rv = coord.record_vote(id, shard, vote.clone());
@@ -1633,6 +1696,84 @@ fn coord_inner(case_seed: u64, r: &mut Report) -> Result<(u64, bool), Fail> {
                         _ => trace.push(format!("prepare again(tx{}, shard {}, {:?}) -> No", id, shard, keys)),
                     }
                 }
+                8 => {
+                    // (coord-lease) the coordinator goes down, the leases of the chosen key locks run
+                    // out, and it comes back from its persisted state: pending transactions and lock
+                    // table as saved, the chosen locks 100 leases older
+                    let store = restart_store.get_or_insert_with(tensor_store::TensorStore::new);
+                    if let Err(e) = coord.save_to_store("n", store) {
+                        r.inconclusive(&format!("coordinator save_to_store failed: {}", first_line(&e.to_string())));
+                        continue;
+                    }
+                    let skey = match store.scan("_dtx:coordinator:").into_iter().next() {
+                        Some(k) => k,
+                        None => {
+                            r.inconclusive("coordinator save_to_store wrote no _dtx:coordinator: entry");
+                            continue;
+                        }
+                    };
+                    let bytes = match store.get(&skey).ok().and_then(|d| match d.get("state") {
+                        Some(tensor_store::TensorValue::Scalar(tensor_store::ScalarValue::Bytes(b))) => Some(b.clone()),
+                        _ => None,
+                    }) {
+                        Some(b) => b,
+                        None => {
+                            r.inconclusive("persisted coordinator state has no 'state' bytes");
+                            continue;
+                        }
+                    };
+                    let mut st: CoordinatorState = match bitcode::deserialize(&bytes) {
+                        Ok(s) => s,
+                        Err(e) => return fail("coord:persisted-state-does-not-decode", format!("{}; program {:?}", e, trace)),
+                    };
+                    // every lock / all locks of one holder / one held key / (rarely) none
+                    let holders: Vec<u64> = held.values().copied().collect::<BTreeSet<u64>>().into_iter().collect();
+                    let victims: Vec<String> = match rng.below(8) {
+                        _ if holders.is_empty() => vec![],
+                        0 | 1 => held.keys().cloned().collect(),
+                        2..=4 => {
+                            let h = *rng.pick(&holders);
+                            held.iter().filter(|(_, t)| **t == h).map(|(k, _)| k.clone()).collect()
+                        }
+                        5 | 6 => vec![held.keys().nth(rng.below(held.len())).cloned().unwrap_or_default()],
+                        _ => vec![],
+                    };
+                    let mut locks = st.lock_state.locks().clone();
+                    let mut aged: Vec<String> = Vec::new();
+                    for k in &victims {
+                        if let (Some(raw), Some(&owner)) = (locks.get_mut(k), held.get(k)) {
+                            if raw.tx_id == owner {
+                                raw.acquired_at_ms = raw.acquired_at_ms.saturating_sub(raw.timeout_ms.saturating_mul(100).saturating_add(1_000));
+                                aged.push(format!("{}:tx{}", k, owner));
+                                held.remove(k);
+                                lapsed.insert(k.clone(), owner);
+                                if let Some(t) = txs.iter_mut().find(|t| t.id == owner) {
+                                    t.lost.insert(k.clone());
+                                }
+                            }
+                        }
+                    }
+                    st.lock_state = SerializableLockState::new(locks, st.lock_state.tx_locks().clone(), st.lock_state.default_timeout_ms());
+                    let mut data = tensor_store::TensorData::new();
+                    match bitcode::serialize(&st) {
+                        Ok(b) => data.set("state", tensor_store::TensorValue::Scalar(tensor_store::ScalarValue::Bytes(b))),
+                        Err(e) => {
+                            r.inconclusive(&format!("bitcode serialize failed: {}", first_line(&e.to_string())));
+                            continue;
+                        }
+                    }
+                    if store.put(skey, data).is_err() {
+                        r.inconclusive("could not store the coordinator state");
+                        continue;
+                    }
+                    coord = match DistributedTxCoordinator::load_from_store("n", store, ConsensusManager::default_config(), cfg.clone()) {
+                        Ok(c) => c,
+                        Err(e) => return fail("coord:persisted-state-does-not-load", format!("{}; program {:?}", e, trace)),
+                    };
+                    r.count("coord_op[restart_after_downtime]", 1);
+                    r.count("coord_locks_aged_past_lease", aged.len() as u64);
+                    trace.push(format!("restart after downtime: leases of {:?} ran out", aged));
+                }
                 4 => {
                     let res = coord.complete_abort(id);
                     trace.push(format!("complete_abort(tx{}) -> {}", id, if res.is_ok() { "Ok" } else { "Err" }));
@@ -1640,11 +1781,12 @@ fn coord_inner(case_seed: u64, r: &mut Report) -> Result<(u64, bool), Fail> {
                     if res.is_ok() {
                         let gone_tx = txs.remove(idx);
                         held.retain(|_, t| *t != id);
+                        lapsed.retain(|_, t| *t != id);
                         completions += 1;
                         for p in &parts {
                             let _ = p.abort(id);
                         }
-                        completed(id, "abort", &gone_tx.unrecorded, &all_ids, &trace, &mut soft, r)?;
+                        completed(&coord, id, "abort", &gone_tx.unrecorded, &all_ids, &trace, &mut soft, r)?;
                     }
                 }
                 _ => {
@@ -1677,11 +1819,12 @@ fn coord_inner(case_seed: u64, r: &mut Report) -> Result<(u64, bool), Fail> {
                         let unrec: BTreeSet<u64> = txs.iter().find(|x| x.id == t).map(|x| x.unrecorded.clone()).unwrap_or_default();
                         txs.retain(|x| x.id != t);
                         held.retain(|_, o| *o != t);
+                        lapsed.retain(|_, o| *o != t);
                         completions += 1;
                         for p in &parts {
                             let _ = p.abort(t);
                         }
-                        completed(t, "timeout", &unrec, &all_ids, &trace, &mut soft, r)?;
+                        completed(&coord, t, "timeout", &unrec, &all_ids, &trace, &mut soft, r)?;
                     }
                     // a transaction has timed out when its deadline has passed and the sweep has
                     // run, whether or not the sweep announces it: none of its locks may remain and
@@ -1694,7 +1837,7 @@ fn coord_inner(case_seed: u64, r: &mut Report) -> Result<(u64, bool), Fail> {
                         r.count("coord_overdue_not_announced", 1);
                         trace.push(format!("(tx{} was {:?} and past its {} ms deadline, not listed by the sweep)", t, ph, prepare_timeout_ms));
                         let unrec: BTreeSet<u64> = txs.iter().find(|x| x.id == t).map(|x| x.unrecorded.clone()).unwrap_or_default();
-                        completed(t, "timeout", &unrec, &all_ids, &trace, &mut soft, r)?;
+                        completed(&coord, t, "timeout", &unrec, &all_ids, &trace, &mut soft, r)?;
                     }
                 }
             }
@@ -1719,7 +1862,7 @@ fn coord_inner(case_seed: u64, r: &mut Report) -> Result<(u64, bool), Fail> {
         if coord.abort(t.id, "end").is_ok() {
             trace.push(format!("abort(tx{}) -> Ok", t.id));
             completions += 1;
-            completed(t.id, "abort", &t.unrecorded, &all_ids, &trace, &mut soft, r)?;
+            completed(&coord, t.id, "abort", &t.unrecorded, &all_ids, &trace, &mut soft, r)?;
         }
     }
     if !coord.lock_manager().to_serializable().locks().is_empty() {
@@ -1729,19 +1872,19 @@ fn coord_inner(case_seed: u64, r: &mut Report) -> Result<(u64, bool), Fail> {
     let mut seen = BTreeSet::new();
     for f in soft {
         if seen.insert(f.sig.clone()) {
-            r.violation(f.sig, f.detail, json!({"part": "coord", "case_seed": case_seed}));
+            r.violation(f.sig, f.detail, json!({"part": part, "case_seed": case_seed}));
         }
     }
-    if r.want_sample() && conflicts > 0 && completions >= 3 {
-        r.sample(json!({"part": "coord", "program": trace.iter().take(14).collect::<Vec<_>>()}));
+    if r.want_sample() && conflicts > 0 && completions >= 3 && (!lease || lease_losses_met > 0) {
+        r.sample(json!({"part": part, "program": trace.iter().take(if lease { 22 } else { 14 }).collect::<Vec<_>>()}));
     }
     // transaction ids differ from run to run (clock based): hash the shape of the program
     let shape: Vec<String> = trace.iter().map(|s| first_line(s)).collect();
-    Ok((hash_str(&shape.join(";")), conflicts > 0 && completions > 0))
+    Ok((hash_str(&shape.join(";")), conflicts > 0 && completions > 0 && (!lease || lease_losses_met > 0)))
 }
 
-fn coord_case(case_seed: u64, r: &mut Report) -> bool {
-    match coord_inner(case_seed, r) {
+fn coord_case(case_seed: u64, lease: bool, r: &mut Report) -> bool {
+    match coord_inner(case_seed, lease, r) {
         Ok((h, nt)) => {
             if h != 0 {
                 r.eval(h, nt);
@@ -1750,7 +1893,7 @@ fn coord_case(case_seed: u64, r: &mut Report) -> bool {
             true
         }
         Err(f) => {
-            r.violation(f.sig, f.detail, json!({"part": "coord", "case_seed": case_seed}));
+            r.violation(f.sig, f.detail, json!({"part": if lease { "coord-lease" } else { "coord" }, "case_seed": case_seed}));
             false
         }
     }
@@ -2135,18 +2278,62 @@ fn participant_op(rng: &mut Rng, nk: usize) -> Transaction {
     }
 }
 
-fn participant_inner(case_seed: u64, r: &mut Report) -> Result<(u64, bool), Fail> {
+/// a key lock as the reference sees it: the transaction whose PREPARE was granted it and, per grant that
+/// may be the one in force, the harness clock before / after that PREPARE (the participant's own stamp
+/// of the lock lies in between) and the lease it was granted for (`LockManager::default_timeout` at that
+/// moment). A retransmitted PREPARE answered YES while the transaction still held the key may or may
+/// not have renewed the lease (the statement is silent): both grants stay candidates.
+#[derive(Clone, Debug)]
+struct PLock {
+    tx: u64,
+    /// (a0, a1, lease_ms)
+    grants: Vec<(u64, u64, u64)>,
+}
+impl PLock {
+    /// the code: expired <=> now - acquired > lease, with a0 <= acquired <= a1 and t0 <= now <= t1
+    fn status(&self, t0: u64, t1: u64) -> St {
+        let one = |&(a0, a1, lease_ms): &(u64, u64, u64)| {
+            if t1.saturating_sub(a0) < lease_ms {
+                St::Live
+            } else if t0.saturating_sub(a1) > lease_ms.saturating_add(1) {
+                St::Expired
+            } else {
+                St::Ambig
+            }
+        };
+        if self.grants.iter().all(|g| one(g) == St::Live) {
+            St::Live
+        } else if self.grants.iter().all(|g| one(g) == St::Expired) {
+            St::Expired
+        } else {
+            St::Ambig
+        }
+    }
+    fn describe(&self, t0: u64, t1: u64) -> String {
+        format!("tx{} {:?}", self.tx, self.grants.iter().map(|&(a0, a1, l)| format!("{}..{} ms ago for {} ms", t0.saturating_sub(a1), t1.saturating_sub(a0), l)).collect::<Vec<_>>())
+    }
+}
+
+/// `lease` = part participant-lease: the key locks' leases run out while the prepared entries stay
+/// (without it every lock outlives its case and the reference never sees anything but live locks)
+fn participant_inner(case_seed: u64, lease: bool, r: &mut Report) -> Result<(u64, bool), Fail> {
     let mut rng = Rng::new(case_seed);
     let mut p = TxParticipant::new_in_memory();
     let nk = 2 + rng.below(3);
     let universe: Vec<String> = (0..nk).flat_map(|i| [kname(i), format!("table:{}", kname(i)), format!("node:{}", kname(i))]).collect();
     // one case in eight lets prepared transactions really age past a 25 ms participant timeout
     let timed = rng.chance(1, 8);
+    // participant-lease, one case in six: some PREPAREs are granted a 25 ms lease that really runs out
+    // during 40 ms naps; in every participant-lease case leases also run out during a "downtime" (the
+    // lock table is restored with the chosen locks 100 leases older)
+    let short_leases = lease && rng.chance(1, 6);
+    let part = if lease { "participant-lease" } else { "participant" };
     let mut txs: Vec<PTx> = Vec::new();
-    let mut held: BTreeMap<String, u64> = BTreeMap::new();
+    let mut held: BTreeMap<String, PLock> = BTreeMap::new();
     let mut trace: Vec<String> = Vec::new();
     let mut next_id = *rng.pick(&[1u64, 500, 1 << 41]);
     let (mut conflicts, mut completions, mut naps) = (0u64, 0u64, 0);
+    let (mut ambiguous, mut lease_losses_met) = (0u64, 0u64);
     let case_started = Instant::now();
 
     // the transaction is gone at this participant (commit / abort / timeout): none of its locks remain
@@ -2169,6 +2356,13 @@ fn participant_inner(case_seed: u64, r: &mut Report) -> Result<(u64, bool), Fail
         Ok(())
     }
 
+    // some key the transaction was granted is not its own any more for certain (its lease ran out, or
+    // another transaction took the key over after that)
+    fn lost_lock(held: &BTreeMap<String, PLock>, t: &PTx) -> bool {
+        let now = now_ms();
+        t.lock_keys.iter().any(|k| held.get(k).map(|l| l.tx != t.id || l.status(now, now) == St::Expired).unwrap_or(true))
+    }
+
     let steps = 6 + rng.below(40);
     for _ in 0..steps {
         if case_started.elapsed() > Duration::from_secs(3) {
@@ -2186,33 +2380,105 @@ fn participant_inner(case_seed: u64, r: &mut Report) -> Result<(u64, bool), Fail
         let idx = rng.below(txs.len());
         let id = txs[idx].id;
         let mut after = "";
-        match rng.weighted(&[44, 12, 12, 9, 5, 6, if timed { 8 } else { 0 }]) {
+        // (participant-lease: fewer sweeps, so that more prepared transactions live to see their leases
+        // run out and their keys taken over)
+        let (w_stale, w_recover) = if lease { (5, 3) } else { (9, 5) };
+        match rng.weighted(&[44, 12, 12, w_stale, w_recover, 6, if timed || short_leases { 8 } else { 0 }, if lease { 12 } else { 0 }]) {
             0 => {
                 // PREPARE: the first one, a retransmission while prepared, or a late duplicate after
                 // the transaction was finished here (the participant then prepares it afresh)
                 let keys = txs[idx].lock_keys.clone();
-                let blockers: BTreeSet<u64> = keys.iter().filter_map(|k| held.get(k).copied()).filter(|&t| t != id).collect();
-                let mine_before: BTreeSet<String> = held.iter().filter(|(_, t)| **t == id).map(|(k, _)| k.clone()).collect();
+                if short_leases {
+                    p.locks.default_timeout = if rng.bool() { Duration::from_millis(25) } else { Duration::from_secs(120) };
+                }
+                let lease_ms = p.locks.default_timeout.as_millis() as u64;
                 let again = txs[idx].prepared;
                 let t0 = now_ms();
                 let vote = p.prepare(txs[idx].req.clone());
                 let t1 = now_ms();
                 r.count(if again { "participant_op[prepare_retransmitted]" } else { "participant_op[prepare]" }, 1);
+                // the other transactions on the requested keys: holders for certain (lease running at
+                // t1 at the latest), former holders for certain (lease run out before t0), undecidable
+                let (mut blockers, mut maybe_blockers, mut expired_blockers) = (BTreeSet::new(), BTreeSet::new(), BTreeSet::new());
+                // requested keys the transaction was granted earlier and does not hold for certain any
+                // more: its own lease ran out, or another transaction took the key over after that
+                let mut lost: BTreeSet<String> = BTreeSet::new();
+                for k in &keys {
+                    match held.get(k) {
+                        Some(l) if l.tx != id => {
+                            match l.status(t0, t1) {
+                                St::Live => blockers.insert(l.tx),
+                                St::Ambig => maybe_blockers.insert(l.tx),
+                                St::Expired => expired_blockers.insert(l.tx),
+                            };
+                            if again {
+                                lost.insert(k.clone());
+                            }
+                        }
+                        Some(l) => {
+                            if again && l.status(t0, t1) == St::Expired {
+                                lost.insert(k.clone());
+                            }
+                        }
+                        None => {
+                            if again {
+                                lost.insert(k.clone());
+                            }
+                        }
+                    }
+                }
+                ambiguous += maybe_blockers.len() as u64;
+                if again && !lost.is_empty() {
+                    lease_losses_met += 1;
+                    r.count("participant_prepare_again_after_lease_ran_out", 1);
+                    if !blockers.is_empty() {
+                        // the retransmission meets a key that another transaction took over and holds
+                        r.count("participant_prepare_again_meets_key_taken_over", 1);
+                    }
+                }
+                let mine_before: BTreeSet<String> = held.iter().filter(|(_, l)| l.tx == id).map(|(k, _)| k.clone()).collect();
                 match &vote {
                     PrepareVote::Yes { lock_handle, .. } => {
                         trace.push(format!("PREPARE{}(tx{}, {:?}) -> Yes(h{})", if again { " again" } else { "" }, id, keys, lock_handle));
                         if !blockers.is_empty() {
                             return fail(
                                 "participant:prepare-granted-over-held-key",
-                                format!("PREPARE of tx {} on {:?} was answered YES although {:?} hold(s) a requested key; program {:?}", id, keys, blockers, trace),
+                                format!(
+                                    "PREPARE of tx {} on {:?} was answered YES although {:?} hold(s) a requested key (lock_holder: {:?}); program {:?}",
+                                    id,
+                                    keys,
+                                    blockers,
+                                    keys.iter().map(|k| (k.clone(), p.locks.lock_holder(k))).collect::<Vec<_>>(),
+                                    trace
+                                ),
                             );
                         }
                         for k in &keys {
-                            held.insert(k.clone(), id);
-                            if p.locks.lock_holder(k) != Some(id) {
+                            if let Some(old) = held.get(k) {
+                                if old.tx != id && !maybe_blockers.contains(&old.tx) {
+                                    r.count("participant_takeovers_of_expired_locks", 1);
+                                }
+                            }
+                            // the grant in force: this one - or, if the transaction held the key anyway
+                            // (retransmission), possibly still an earlier one
+                            let mut grants = vec![(t0, t1, lease_ms)];
+                            if let Some(old) = held.get(k) {
+                                if again && old.tx == id && old.status(t0, t1) != St::Expired {
+                                    grants.extend(old.grants.iter().copied());
+                                    grants.sort();
+                                    grants.dedup();
+                                }
+                            }
+                            let now_held = PLock { tx: id, grants };
+                            let hol = p.locks.lock_holder(k);
+                            let t2 = now_ms();
+                            // (a lease that may have run out since the grant is not judged)
+                            let judged = now_held.status(t2, t2) == St::Live;
+                            held.insert(k.clone(), now_held);
+                            if hol != Some(id) && judged {
                                 return fail(
                                     "participant:requested-key-not-held-after-yes",
-                                    format!("PREPARE of tx {} on {:?} was answered YES but lock_holder({}) = {:?}; program {:?}", id, keys, k, p.locks.lock_holder(k), trace),
+                                    format!("PREPARE of tx {} on {:?} was answered YES but lock_holder({}) = {:?}; program {:?}", id, keys, k, hol, trace),
                                 );
                             }
                         }
@@ -2231,14 +2497,23 @@ fn participant_inner(case_seed: u64, r: &mut Report) -> Result<(u64, bool), Fail
                     PrepareVote::Conflict { conflicting_tx, .. } => {
                         conflicts += 1;
                         trace.push(format!("PREPARE{}(tx{}, {:?}) -> Conflict(tx{})", if again { " again" } else { "" }, id, keys, conflicting_tx));
-                        if blockers.is_empty() {
+                        if blockers.is_empty() && maybe_blockers.is_empty() {
+                            if !expired_blockers.is_empty() {
+                                return fail(
+                                    "participant:prepare-refused-because-of-expired-lock",
+                                    format!("PREPARE of tx {} on {:?} was refused naming tx {} although the only other locks on the requested keys, of {:?}, had run out; program {:?}", id, keys, conflicting_tx, expired_blockers, trace),
+                                );
+                            }
                             return fail(
                                 "participant:conflict-vote-although-no-requested-key-is-held",
                                 format!("PREPARE of tx {} on {:?} was refused naming tx {} although no other transaction holds a requested key; program {:?}", id, keys, conflicting_tx, trace),
                             );
                         }
-                        if !blockers.contains(conflicting_tx) {
-                            return fail("participant:conflict-vote-names-non-holder", format!("PREPARE of tx {} on {:?} names tx {}, holders are {:?}; program {:?}", id, keys, conflicting_tx, blockers, trace));
+                        if !blockers.contains(conflicting_tx) && !maybe_blockers.contains(conflicting_tx) {
+                            return fail(
+                                "participant:conflict-vote-names-non-holder",
+                                format!("PREPARE of tx {} on {:?} names tx {}, holders are {:?} / {:?}; program {:?}", id, keys, conflicting_tx, blockers, maybe_blockers, trace),
+                            );
                         }
                         for k in &keys {
                             if !mine_before.contains(k) && p.locks.lock_holder(k) == Some(id) {
@@ -2264,7 +2539,10 @@ fn participant_inner(case_seed: u64, r: &mut Report) -> Result<(u64, bool), Fail
                 r.count(if commit { "participant_op[commit]" } else { "participant_op[abort]" }, 1);
                 if target == id && txs[idx].prepared {
                     txs[idx].prepared = false;
-                    held.retain(|_, t| *t != id);
+                    if lost_lock(&held, &txs[idx]) {
+                        r.count("participant_completions_after_lease_ran_out", 1);
+                    }
+                    held.retain(|_, l| l.tx != id);
                     completions += 1;
                     nothing_left(&p, &txs[idx], if commit { "commit" } else { "abort" }, &trace, r)?;
                     txs[idx].yes_votes = 0;
@@ -2278,7 +2556,13 @@ fn participant_inner(case_seed: u64, r: &mut Report) -> Result<(u64, bool), Fail
                 // does time out and (b) every one whose latest PREPARE was answered more than the
                 // timeout ago for certain when the sweep began, listed or not.
                 let stale_sweep = rng.weighted(&[9, 5]) == 0;
-                let timeout_ms: u64 = if timed { 25 } else { *rng.pick(&[0u64, 0, 3_600_000]) };
+                let timeout_ms: u64 = if timed {
+                    25
+                } else if lease {
+                    *rng.pick(&[0u64, 3_600_000, 3_600_000])
+                } else {
+                    *rng.pick(&[0u64, 0, 3_600_000])
+                };
                 if timeout_ms == 0 {
                     std::thread::sleep(Duration::from_millis(2));
                 }
@@ -2302,7 +2586,10 @@ fn participant_inner(case_seed: u64, r: &mut Report) -> Result<(u64, bool), Fail
                         }
                         t.prepared = false;
                         let tid = t.id;
-                        held.retain(|_, o| *o != tid);
+                        if lost_lock(&held, t) {
+                            r.count("participant_completions_after_lease_ran_out", 1);
+                        }
+                        held.retain(|_, l| l.tx != tid);
                         completions += 1;
                         r.count("participant_timeouts", 1);
                         nothing_left(&p, t, "timeout", &trace, r)?;
@@ -2323,25 +2610,102 @@ fn participant_inner(case_seed: u64, r: &mut Report) -> Result<(u64, bool), Fail
                     Err(e) => r.inconclusive(&format!("participant save_to_store failed: {}", first_line(&e.to_string()))),
                 }
             }
-            _ => {
+            6 => {
                 if naps < 4 {
                     naps += 1;
                     std::thread::sleep(Duration::from_millis(40));
                     trace.push("nap 40 ms".into());
+                    if short_leases {
+                        r.count("participant_naps_longer_than_the_short_lease", 1);
+                    }
                 }
             }
-        }
-        // one holder per key: the transaction whose PREPARE was granted it and that is still prepared
-        for k in &universe {
-            let h = p.locks.lock_holder(k);
-            r.count("participant_holder_reads_checked", 1);
-            if h != held.get(k).copied() {
-                let sig = match (h, held.get(k)) {
-                    (None, Some(_)) => "participant:lock-of-prepared-transaction-vanished",
-                    (Some(_), None) => "participant:key-held-although-no-prepared-transaction-was-granted-it",
-                    _ => "participant:holder-differs-from-grantee",
+            _ => {
+                // downtime (participant-lease only): the lock table comes back with the chosen locks
+                // 100 leases older, i.e. their leases have run out for certain; the prepared entries
+                // are what they were (no cleanup_stale / recover has run)
+                // every lock / all locks of one holder / one held key / (rarely) none
+                let holders: Vec<u64> = held.values().map(|l| l.tx).collect::<BTreeSet<u64>>().into_iter().collect();
+                let victims: Vec<String> = match rng.below(8) {
+                    _ if holders.is_empty() => vec![],
+                    0 | 1 => held.keys().cloned().collect(),
+                    2..=4 => {
+                        let h = *rng.pick(&holders);
+                        held.iter().filter(|(_, l)| l.tx == h).map(|(k, _)| k.clone()).collect()
+                    }
+                    5 | 6 => vec![held.keys().nth(rng.below(held.len())).cloned().unwrap_or_default()],
+                    _ => vec![],
                 };
-                return fail(format!("{}{}", sig, after), format!("{}: lock_holder = {:?}, granted to {:?}; program {:?}", k, h, held.get(k), trace));
+                let st = p.locks.to_serializable();
+                let mut locks = st.locks().clone();
+                let mut aged: Vec<String> = Vec::new();
+                for k in &victims {
+                    if let (Some(raw), Some(m)) = (locks.get_mut(k), held.get_mut(k)) {
+                        if raw.tx_id == m.tx {
+                            let longest = m.grants.iter().map(|g| g.2).max().unwrap_or(0).max(raw.timeout_ms);
+                            let delta = longest.saturating_mul(100).saturating_add(1_000);
+                            raw.acquired_at_ms = raw.acquired_at_ms.saturating_sub(delta);
+                            for g in m.grants.iter_mut() {
+                                g.0 = g.0.saturating_sub(delta);
+                                g.1 = g.1.saturating_sub(delta);
+                            }
+                            aged.push(format!("{}:tx{}", k, m.tx));
+                        }
+                    }
+                }
+                let mut new = SerializableLockState::new(locks, st.tx_locks().clone(), st.default_timeout_ms());
+                if rng.bool() {
+                    match bitcode::serialize(&new).map(|b| bitcode::deserialize::<SerializableLockState>(&b)) {
+                        Ok(Ok(s)) => new = s,
+                        Ok(Err(e)) => return fail("participant:serialized-lock-state-does-not-decode", format!("{}; program {:?}", e, trace)),
+                        Err(e) => r.inconclusive(&format!("bitcode serialize failed: {}", first_line(&e.to_string()))),
+                    }
+                }
+                p.locks = LockManager::from_serializable(new);
+                r.count("participant_op[downtime]", 1);
+                r.count("participant_locks_aged_past_lease", aged.len() as u64);
+                trace.push(format!("downtime: leases of {:?} ran out", aged));
+                after = "@after-downtime";
+            }
+        }
+        // one holder per key: the transaction whose PREPARE was granted it and that is still prepared,
+        // as long as the lease of that grant runs
+        for k in &universe {
+            let t0 = now_ms();
+            let h = p.locks.lock_holder(k);
+            let t1 = now_ms();
+            r.count("participant_holder_reads_checked", 1);
+            let sig = match held.get(k) {
+                None => h.map(|_| "participant:key-held-although-no-prepared-transaction-was-granted-it"),
+                Some(l) => match l.status(t0, t1) {
+                    St::Live => {
+                        if h == Some(l.tx) {
+                            None
+                        } else if h.is_none() {
+                            Some("participant:lock-of-prepared-transaction-vanished")
+                        } else {
+                            Some("participant:holder-differs-from-grantee")
+                        }
+                    }
+                    St::Expired => {
+                        r.count("participant_reads_of_keys_whose_lease_ran_out", 1);
+                        h.map(|_| "participant:key-reported-held-after-its-lease-ran-out")
+                    }
+                    St::Ambig => {
+                        ambiguous += 1;
+                        if h.is_some() && h != Some(l.tx) {
+                            Some("participant:holder-differs-from-grantee")
+                        } else {
+                            None
+                        }
+                    }
+                },
+            };
+            if let Some(sig) = sig {
+                return fail(
+                    format!("{}{}", sig, after),
+                    format!("{}: lock_holder = {:?}, granted to {:?}; program {:?}", k, h, held.get(k).map(|l| l.describe(t0, t1)), trace),
+                );
             }
         }
     }
@@ -2360,16 +2724,17 @@ fn participant_inner(case_seed: u64, r: &mut Report) -> Result<(u64, bool), Fail
         );
     }
     r.count("participant_conflict_votes", conflicts);
-    if r.want_sample() && conflicts > 0 && completions >= 3 && trace.iter().any(|s| s.starts_with("PREPARE again")) {
-        r.sample(json!({"part": "participant", "program": trace.iter().take(14).collect::<Vec<_>>()}));
+    r.count("participant_ambiguous_lease_windows_skipped", ambiguous);
+    if r.want_sample() && conflicts > 0 && completions >= 3 && trace.iter().any(|s| s.starts_with("PREPARE again")) && (!lease || lease_losses_met > 0) {
+        r.sample(json!({"part": part, "program": trace.iter().take(if lease { 20 } else { 14 }).collect::<Vec<_>>()}));
     }
     // lock handles come from a process-wide counter: leave them out of the program's hash
     let shape: Vec<String> = trace.iter().map(|s| s.split("(h").next().unwrap_or("").to_string()).collect();
-    Ok((hash_str(&shape.join(";")), conflicts > 0 && completions > 0))
+    Ok((hash_str(&shape.join(";")), conflicts > 0 && completions > 0 && (!lease || lease_losses_met > 0)))
 }
 
-fn participant_case(case_seed: u64, r: &mut Report) -> bool {
-    match participant_inner(case_seed, r) {
+fn participant_case(case_seed: u64, lease: bool, r: &mut Report) -> bool {
+    match participant_inner(case_seed, lease, r) {
         Ok((h, nt)) => {
             if h != 0 {
                 r.eval(h, nt);
@@ -2378,7 +2743,7 @@ fn participant_case(case_seed: u64, r: &mut Report) -> bool {
             true
         }
         Err(f) => {
-            r.violation(f.sig, f.detail, json!({"part": "participant", "case_seed": case_seed}));
+            r.violation(f.sig, f.detail, json!({"part": if lease { "participant-lease" } else { "participant" }, "case_seed": case_seed}));
             false
         }
     }
@@ -2892,9 +3257,11 @@ fn main() {
                 "graphN" => graph_n_case(s, &mut total),
                 "graph-prog" => graph_prog_case(s, &mut total),
                 "locks-seq" => locks_seq_case(s, &mut total),
-                "coord" => coord_case(s, &mut total),
+                "coord" => coord_case(s, false, &mut total),
+                "coord-lease" => coord_case(s, true, &mut total),
                 "threads" => threads_case(s, &mut total),
-                "participant" => participant_case(s, &mut total),
+                "participant" => participant_case(s, false, &mut total),
+                "participant-lease" => participant_case(s, true, &mut total),
                 "coord-threads" => coord_threads_case(s, &mut total),
                 other => {
                     total.inconclusive(&format!("unknown replay part {:?}", other));
@@ -2947,17 +3314,37 @@ fn main() {
         if want("coord") {
             let n = args.by_tier(4_000u64, 120_000u64);
             let mut rep = par_cases(th, args.seed ^ 0x44, n, args.budget(120, 240), |_i, s, r| {
-                coord_case(s, r);
+                coord_case(s, false, r);
             });
             rep.samples.truncate(2);
+            total.merge(rep);
+        }
+        if want("coord-lease") {
+            let n = args.by_tier(2_500u64, 80_000u64);
+            let mut rep = par_cases(th, args.seed ^ 0x99, n, args.budget(60, 150), |_i, s, r| {
+                coord_case(s, true, r);
+            });
+            rep.samples.truncate(2);
+            // the same program driver as part coord: its counters are kept apart
+            rep.counters = std::mem::take(&mut rep.counters).into_iter().map(|(k, v)| (k.replacen("coord_", "coord_lease_", 1), v)).collect();
             total.merge(rep);
         }
         if want("participant") {
             let n = args.by_tier(3_000u64, 60_000u64);
             let mut rep = par_cases(th, args.seed ^ 0x66, n, args.budget(60, 150), |_i, s, r| {
-                participant_case(s, r);
+                participant_case(s, false, r);
             });
             rep.samples.truncate(2);
+            total.merge(rep);
+        }
+        if want("participant-lease") {
+            let n = args.by_tier(4_000u64, 80_000u64);
+            let mut rep = par_cases(th, args.seed ^ 0x88, n, args.budget(60, 150), |_i, s, r| {
+                participant_case(s, true, r);
+            });
+            rep.samples.truncate(2);
+            // the same program driver as part participant: its counters are kept apart
+            rep.counters = std::mem::take(&mut rep.counters).into_iter().map(|(k, v)| (k.replacen("participant_", "participant_lease_", 1), v)).collect();
             total.merge(rep);
         }
         if want("coord-threads") {
@@ -3024,6 +3411,24 @@ fn main() {
             floors.push(("participant_timeouts", 200));
             floors.push(("participant_op[save_load]", 100));
         }
+        if want("participant-lease") {
+            floors.push(("participant_lease_programs", 500));
+            floors.push(("participant_lease_locks_aged_past_lease", 1_500));
+            floors.push(("participant_lease_takeovers_of_expired_locks", 250));
+            floors.push(("participant_lease_prepare_again_after_lease_ran_out", 400));
+            floors.push(("participant_lease_prepare_again_meets_key_taken_over", 80));
+            floors.push(("participant_lease_completions_after_lease_ran_out", 200));
+            floors.push(("participant_lease_reads_of_keys_whose_lease_ran_out", 3_000));
+            floors.push(("participant_lease_naps_longer_than_the_short_lease", 50));
+        }
+        if want("coord-lease") {
+            floors.push(("coord_lease_programs", 300));
+            floors.push(("coord_lease_op[restart_after_downtime]", 600));
+            floors.push(("coord_lease_locks_aged_past_lease", 300));
+            floors.push(("coord_lease_takeovers_of_expired_locks", 25));
+            floors.push(("coord_lease_prepare_again_after_lease_ran_out", 100));
+            floors.push(("coord_lease_prepare_again_meets_key_taken_over", 10));
+        }
         if want("coord-threads") {
             floors.push(("cthread_cases", 10));
             floors.push(("cthread_grants", 1_000));
@@ -3041,7 +3446,7 @@ fn main() {
     }
     let meta = Meta {
         property: "C12",
-        rule: "graph cases are distinct by edge set (non-trivial: >= 1 edge for the exhaustive 4-transaction family, >= 2 edges otherwise); lock / coordinator programs are distinct by the hash of their executed call trace and non-trivial if at least one request was refused because of a held key; participant programs likewise (non-trivial: at least one PREPARE refused because of a held key and at least one completion); threaded cases are distinct by the hash of the global event order (thread, call kind, granted?) and non-trivial if at least one request was refused (coord-threads: and at least one orphan sweep ran). graph4 is exhaustive: all 4 096 digraphs on 4 transactions x 3 (thorough: 12) labelings/insertion orders x (1 bare WaitForGraph + 5 detector configurations).",
+        rule: "graph cases are distinct by edge set (non-trivial: >= 1 edge for the exhaustive 4-transaction family, >= 2 edges otherwise); lock / coordinator programs are distinct by the hash of their executed call trace and non-trivial if at least one request was refused because of a held key; participant programs likewise (non-trivial: at least one PREPARE refused because of a held key and at least one completion); participant-lease / coord-lease programs likewise, non-trivial only if in addition a retransmitted PREPARE met a key whose lease had run out for the transaction (counters participant_lease_* / coord_lease_* are those of the lease parts alone); threaded cases are distinct by the hash of the global event order (thread, call kind, granted?) and non-trivial if at least one request was refused (coord-threads: and at least one orphan sweep ran). graph4 is exhaustive: all 4 096 digraphs on 4 transactions x 3 (thorough: 12) labelings/insertion orders x (1 bare WaitForGraph + 5 detector configurations).",
         assumptions: vec![
             "the recorded wait-for relation is the set of add_wait calls made minus those removed; self-waits are not recorded (add_wait documents them as invalid)".into(),
             "'reports a cycle exactly when' is judged as existence (some cycle reported <=> the reference finds a non-trivial SCC); every reported cycle must be a simple cycle of recorded edges and the victim one of its members; max_cycle_length is set to 64 (> 8)".into(),
@@ -3052,6 +3457,7 @@ fn main() {
             "in the threaded part the shadow owner mark is set after a grant returned and cleared before the release call; with the 40 ms timeout a collision only counts if the earlier holder's grant is provably younger than half the timeout".into(),
             "a PREPARE may be delivered more than once (retransmission / duplicate delivery of the identical request) while the transaction is pending at the coordinator, and at any time at a participant; two different PREPAREs of one transaction are not generated. A transaction's locks are what its PREPAREs were granted, however often; 'none of its locks remain' is judged on all of them".into(),
             "participant: the requested key set of a PREPARE is the set of stored entries its operations write (Transaction::storage_key); a prepared transaction has timed out when cleanup_stale / recover says so, and in any case when its latest PREPARE was answered more than the timeout before the sweep began (harness clock), whether or not the sweep lists it".into(),
+            "participant-lease / coord-lease: a key lock holds as long as its lease (LockManager::default_timeout at the grant) runs; the prepared / pending entry of a transaction may outlive its locks. Leases run out by a downtime (the persisted lock table comes back with the chosen locks 100 leases + 1 s older, everything else as saved) or, at the participant, in real time (25 ms leases, 40 ms naps); status is derived from the harness' clock readings around every grant, undecidable windows are not judged (participant_lease_ambiguous_lease_windows_skipped). A retransmitted PREPARE answered YES while the key was still held may or may not renew the lease (both grants stay candidates); answered YES after the lease ran out it must be a fresh grant (the key is held by the requester right after). A PREPARE refused although the only other locks on its keys had run out for certain is reported (participant:prepare-refused-because-of-expired-lock), as locks-seq does for try_lock".into(),
             "coord-threads: requests carry zero deltas (the semantic stage never refuses, so nothing but a completion may drop a pending transaction's locks); prepare timeout 1 h and 30 s lock lease against cases of milliseconds (a lock older than 8 s is not judged: inconclusive); release_orphaned_locks never overlaps commit / abort / complete_abort / cleanup_timeouts (harness gate: the two sides take `pending` and the lock tables in opposite orders), it overlaps begin / handle_prepare / record_vote and the observers".into(),
         ],
         floors,
